@@ -17,8 +17,8 @@ T1 == [ins |-> <<[p |-> BOW, s |-> 1, e |-> <<<<7>>>>], [p |-> 1, s |-> 2, e |->
 T2 == [T1 EXCEPT !.fullDelete = TRUE, !.swp = <<1, 3>>]
 Kinds == {<<>>, <<"i">>, <<"d">>, <<"r">>, <<"s">>, <<"i", "d">>, <<"r", "s">>, <<"i", "d", "r", "s">>, <<"d", "s">>, <<"i", "r">>}
 CasesOf(n) == {[w |-> [k \in 1..n |-> k], excl |-> SetToSeq(x), kinds |-> ks, tb |-> t, chain |-> 3, seeds |-> <<1, 2, 3, 4, 5, 6>>,
-                g |-> g, alpha |-> IF g THEN "cluster" ELSE "ascii", providers |-> TRUE] :
-                  x \in SUBSET (0..(n - 1)), ks \in Kinds, t \in {T1, T2}, g \in BOOLEAN}
+                g |-> al # "ascii", alpha |-> al, providers |-> TRUE] :
+                  x \in SUBSET (0..(n - 1)), ks \in Kinds, t \in {T1, T2}, al \in {"ascii", "cluster", "crlf"}}
 \* the chain as the library runs it (spelling corruption, artificial mode, deletions and swaps of letters): every word up to
 \* MaxLen + 1 symbols over three letters (repeats allowed) and, with clusters, over two letters and two symbols that are no
 \* letters (del = the letters of the alphabet), edit probability 1 and 1/2, full deletion allowed or not, several streams
@@ -27,7 +27,10 @@ SpellCases == {[kind |-> "spell", w |-> w, alpha |-> "ascii", del |-> <<1, 2, 3>
                   w \in SpellWords({1, 2, 3}, MaxLen + 1), po \in BOOLEAN, fu \in BOOLEAN, sd \in 0..5}
               \cup {[kind |-> "spell", w |-> w, alpha |-> "cluster", del |-> <<1, 4>>, pone |-> po, full |-> fu, seed |-> sd] :
                   w \in SpellWords({1, 2, 3, 4}, MaxLen), po \in BOOLEAN, fu \in BOOLEAN, sd \in 0..2}
-Cases == UNION {CasesOf(n) : n \in 0..MaxLen} \cup (IF "SPELL" \in DOMAIN IOEnv THEN SpellCases ELSE {})
+SpellTexts == {[kind |-> "spell", ws |-> ws, alpha |-> "ascii", del |-> <<1, 2, 3>>, pone |-> po, full |-> FALSE, seed |-> sd] :
+                  ws \in {<< <<1, 2>>, <<1, 2>> >>, << <<1, 2>>, <<1, 2>>, <<2, 1, 3>> >>, << <<1>>, <<1, 2, 3>> >>, << <<1, 2, 3>>, <<2>>, <<3, 1>> >>},
+                  po \in BOOLEAN, sd \in 0..11}
+Cases == UNION {CasesOf(n) : n \in 0..MaxLen} \cup (IF "SPELL" \in DOMAIN IOEnv THEN SpellCases \cup SpellTexts ELSE {})
 VARIABLE x
 Init == x = 0 /\ ndJsonSerialize(IOEnv.OUT, SetToSeq(Cases))
 Next == UNCHANGED x
